@@ -134,8 +134,24 @@ ds_cyc_twice = dataset(body_cyc_twice)
 ds_cyc.register("twice", ds_cyc_twice)
 ds_cyc.register("y", Option("C", "cyc-y"))
 
+
+
+def double(v):
+    return ("double", v)
+
+
+def body_scaled(b=None, c=Option("C", 0)):
+    return ("scaled", b, c)
+
+
+# callbacks: a consumer with a callback over a dependency without one, and a callback that is itself a pipeline of steps
+ds_plain_dep = dataset(body_dep)
+ds_scaled = dataset(body_scaled, callback=double, defaults={"b": ds_plain_dep})
+ds_two_steps = dataset(body_q, callback=__import__("labrea").pipeline.Pipeline() + double + upper)
+ds_scaled_twice = dataset(body_scaled, callback=double, defaults={"b": ds_two_steps})
+
 DISPATCH_KEY = {"ds_ns": "NS.A"}  # (others dispatch on D)
-GRAPHS = {"ds_cyc": ds_cyc, "ds_cyc_twice": ds_cyc_twice, "ds_total": ds_total, "ds_total_sig": ds_total_sig, "ds_quiet": ds_quiet, "ds_late": ds_late, "ds_ns": ds_ns, "ns": NS, "typed": typed, "ds_a": ds_a, "ds_c": ds_c, "ds_main": ds_main, "ds_abstract": ds_abstract, "ds_derived": ds_derived, "expr_root": expr_root}
+GRAPHS = {"ds_scaled": ds_scaled, "ds_two_steps": ds_two_steps, "ds_scaled_twice": ds_scaled_twice, "ds_cyc": ds_cyc, "ds_cyc_twice": ds_cyc_twice, "ds_total": ds_total, "ds_total_sig": ds_total_sig, "ds_quiet": ds_quiet, "ds_late": ds_late, "ds_ns": ds_ns, "ns": NS, "typed": typed, "ds_a": ds_a, "ds_c": ds_c, "ds_main": ds_main, "ds_abstract": ds_abstract, "ds_derived": ds_derived, "expr_root": expr_root}
 
 
 # decorator form (recorded finding: the name of the function now refers to the Dataset)
